@@ -30,6 +30,28 @@ def recipe(field_indexes, box_array):
     b = box_array[:, :, :, field_indexes[%r]]
     return np.stack([a + b, a - b], axis=-1)
 '''
+REC4 = '''
+import numpy as np
+def recipe(field_indexes, box_array):
+    """%s"""
+    a = box_array[:, :, :, field_indexes[%r]]
+    return %s
+'''
+REC4_FORMS = [("above", "a > 2", lambda a: (a > 2).astype(float)),
+              ("bin", "np.digitize(a, [1.5, 3.5, 6.5])", lambda a: np.digitize(a, [1.5, 3.5, 6.5]).astype(float)),
+              ("half", "(a / 2).astype(np.float32)", lambda a: (a / 2).astype(np.float32).astype(float))]
+REC5 = '''
+import numpy as np
+def recipe(field_indexes, box_array):
+    """
+    mom_a
+    mom_b
+    mom_ab
+    """
+    a = box_array[:, :, :, field_indexes[%r]]
+    b = box_array[:, :, :, field_indexes[%r]]
+    return np.stack([a * 2, b * 3, a * b], axis=-1)
+'''
 REC3 = '''
 def recipe(field_indexes, box_array, sol_array):
     """cpmass"""
@@ -134,6 +156,17 @@ def run_case(ctx, rep, spec, recipe, kept, serial, model, start=None, species=No
         rp = os.path.join(ctx.scratch, f"rec2_{ctx._n}.py"); open(rp, "w").write(REC2 % (a, b))
         rec, new_names = rp, ["sum", "diff"]
         fn = lambda arr: np.stack([arr[..., names[a]] + arr[..., names[b]], arr[..., names[a]] - arr[..., names[b]]], axis=-1)
+    elif recipe.startswith("rec4"):
+        # a recipe whose result is not float64 (a mask, a bin index, single precision)
+        nm4, expr, f4 = REC4_FORMS[int(recipe[4:] or 0)]
+        rp = os.path.join(ctx.scratch, f"rec4_{ctx._n}.py"); open(rp, "w").write(REC4 % (nm4, a, expr))
+        rec, new_names = rp, [nm4]
+        fn = lambda arr: f4(arr[..., names[a]])[..., None]
+    elif recipe == "rec5":
+        # the names of the components one per line in the docstring
+        rp = os.path.join(ctx.scratch, f"rec5_{ctx._n}.py"); open(rp, "w").write(REC5 % (a, b))
+        rec, new_names = rp, ["mom_a", "mom_b", "mom_ab"]
+        fn = lambda arr: np.stack([arr[..., names[a]] * 2, arr[..., names[b]] * 3, arr[..., names[a]] * arr[..., names[b]]], axis=-1)
     elif recipe == "callable":
         def rcall(fi, arr):
             "triple"
@@ -173,7 +206,7 @@ def run_case(ctx, rep, spec, recipe, kept, serial, model, start=None, species=No
     if sorted(Q["fields"]) != sorted(kept_names + new_names) or len(set(Q["fields"])) != len(Q["fields"]):
         bad.append(f"fields {Q['fields']} are not the kept names {kept_names} plus the recipe's names {new_names}")
     bad += writers.same_mesh_meta(P, Q, len(spec["levels"]), "chef")
-    exact = recipe in ("rec1", "rec2", "callable")
+    exact = recipe in ("rec1", "rec2", "callable", "rec5") or recipe.startswith("rec4")
     if not bad:
         for lv in range(len(spec["levels"])):
             for bx in range(len(P["levels"][lv]["idx"])):
@@ -227,6 +260,11 @@ def run_case(ctx, rep, spec, recipe, kept, serial, model, start=None, species=No
         rep.agree(); rep.count("wf-certificate-passes")
     elif cert != "names":
         rep.tie(f"chef's output does not pass the Lean well-formedness certificate ({cert})", case)
+    why = writers.output_header_matches_rewrite(path, out, None, Q["fields"], "chef", leanio, rep)
+    if why:
+        rep.tie(f"header chef derives from its input: {why} (C11.output_header_keeps_mesh / output_header_read_back)", case)
+    else:
+        rep.agree(); rep.count("output-header-is-the-writer-model's")
     why = writers.global_header_theorem_applies(out, leanio)
     if why:
         rep.tie(f"global header of chef's output: {why} (whose parse-after-render law is proved)", case)
@@ -239,10 +277,14 @@ def run(ctx, rep, model=True):
     for i in range(n):
         spec = plotgen.random_spec(ctx.rng, ndims=3, nlev=[2, 1, 3][i % 3], nf=[3, 4, 2][i % 3], data="smallint", B=2,
                                    layout=["scatter", "perm", "files"][i % 3], profile="plain")
+        if i % 3 == 0:
+            spec["subcycle"] = True; spec["step"] = 7
         names = list(dedup_names(spec["fields"]))
         kepts = [None, names[-1], " ".join(names[::-1]), f"nope {names[0]}", " ".join(names[1:])]
-        for j, recipe in enumerate(["rec1", "rec2", "callable"]):
+        for j, recipe in enumerate(["rec1", "rec2", "callable", f"rec4{i % 3}", "rec5"]):
             kept = kepts[(i + j) % len(kepts)]
+            if recipe.startswith("rec4") and not kept:
+                kept = names[-1]
             run_case(ctx, rep, spec, recipe, kept, serial=(j + i) % 2 == 0, model=model,
                      start=[None, pools.order_reversed][(i + j) % 2])
         if len(rep.violations) >= 10:
